@@ -971,7 +971,9 @@ impl Bgi {
     }
 
     pub fn flood_fill(&mut self, x: i32, y: i32, border: u8) {
-        if !self.viewport.contains(x, y) {
+        // only the part of the viewport that is on the screen can be filled; its right and bottom edge are exclusive
+        let clip = self.viewport.intersect(&Rectangle::from(0, 0, self.window.width, self.window.height));
+        if x < clip.left() || x >= clip.right() || y < clip.top() || y >= clip.bottom() {
             return;
         }
         // one list per screen row: the spans are indexed by their absolute row, also in a moved viewport
@@ -988,7 +990,7 @@ impl Bgi {
 
                 while let Some(fli) = point_stack.pop() {
                     let cury = fli.y + fli.dir;
-                    if cury < self.viewport.bottom() && cury >= self.viewport.top() {
+                    if cury < clip.bottom() && cury >= clip.top() {
                         let y_offset = cury * self.window.width;
                         let mut cx = fli.x1;
                         while cx <= fli.x2 {
